@@ -155,6 +155,13 @@ func (e *Exec) callFunction(fr *Frame, ins ssa.Instruction, fn *ssa.Function, ar
 			for _, p := range fn.Params {
 				names = append(names, p.Name())
 			}
+			if len(fn.Params) == 0 && len(args) > 0 {
+				// the body of a function of another package has not been built: take the names from the signature
+				if r := fn.Signature.Recv(); r != nil {
+					names = append(names, r.Name())
+				}
+				names = append(names, sigParamNames(fn.Signature)...)
+			}
 		}
 		all := args
 		if len(binds) > 0 {
@@ -229,6 +236,18 @@ func (e *Exec) applyContract(fr *Frame, ins ssa.Instruction, ctr *Contract, name
 	}
 	pre := st.clone()
 	env.st, env.old = pre, pre
+	if isGo && fr.ctr != nil && fr.ctr.Parfor != "" && len(args) >= 2 {
+		// the function under verification is a parallel-for driver: the extent it hands to each spawned worker
+		// must satisfy the 'with' clauses its callers rely on
+		wenv := e.envForFunc(fr, pre, fr.entryState, nil)
+		wenv.block = ins.Block()
+		wenv = wenv.with("arg0", args[0]).with("arg1", args[1])
+		for _, w := range fr.ctr.With {
+			t := e.evalBool(w, wenv)
+			e.Out.AddObl(&Obligation{Name: fmt.Sprintf("%s/spawn:%s/with:%s", FuncKey(fr.fn), site, w.Label), Func: FuncKey(fr.fn), Kind: "with", Label: w.Label, Text: w.Text, Src: w.Src,
+				Formula: Imp(g, t), Inputs: e.obsInputs(fr), Obs: e.lastObs})
+		}
+	}
 	for _, c := range ctr.PanicsUnless {
 		e.safety(fr, ins, g, e.evalBool(c, env), "callee-panic:"+c.Label)
 	}
@@ -304,6 +323,9 @@ func (e *Exec) applyContract(fr *Frame, ins ssa.Instruction, ctr *Contract, name
 	for _, m := range ctr.Modifies {
 		e.havocLoc(m, env, pre, post)
 	}
+	if ctr.Parfor != "" {
+		e.applyParfor(fr, ins, ctr, env, pre, post, g, site)
+	}
 	// results
 	var res Val
 	if t, ok := resT.(*types.Tuple); !ok || t.Len() > 0 {
@@ -371,16 +393,30 @@ func (e *Exec) havocLoc(m Clause, env *Env, pre, post *State) {
 }
 
 func (e *Exec) havocOne(m Clause, loc location, env *Env, pre, post *State) {
+	if loc.qv != "" || loc.lo != "" {
+		e.havocQuantified(loc, post)
+		return
+	}
 	switch loc.kind {
 	case "ghost":
 		for _, comp := range loc.comps {
 			if loc.key == "" {
-				e.havoc(post, comp.name, comp.sort)
+				cur := e.get(post, comp.name, comp.sort)
+				nw := e.havoc(post, comp.name, comp.sort)
+				if loc.mono {
+					ks, _, _ := arrayParts(comp.sort)
+					k := Sym(e.Out.FreshName("q$k"))
+					e.Out.Assert("(forall ((" + k + " " + string(ks) + ")) (! (=> (select " + cur + " " + k + ") (select " + nw + " " + k + ")) :pattern ((select " + nw + " " + k + "))))")
+				}
 				e.recordWrite(comp.name, "")
 			} else {
 				_, vs, _ := arrayParts(comp.sort)
 				cur := e.get(post, comp.name, comp.sort)
-				e.set(post, comp.name, comp.sort, Sto(cur, loc.key, e.Out.Fresh(comp.name+"@k", vs)))
+				nv := e.Out.Fresh(comp.name+"@k", vs)
+				if loc.mono {
+					e.Out.Assert("(=> (select " + cur + " " + loc.key + ") " + nv + ")")
+				}
+				e.set(post, comp.name, comp.sort, Sto(cur, loc.key, nv))
 				e.recordWrite(comp.name, "")
 			}
 		}
@@ -401,6 +437,45 @@ func (e *Exec) havocOne(m Clause, loc location, env *Env, pre, post *State) {
 		}
 	default:
 		e.unsupported("modifies clause %q does not denote a location", m.Text)
+	}
+}
+
+// havocQuantified havocs a range x[a:b] or an each(...) location: a fresh heap that agrees with the old one
+// everywhere outside the location.
+func (e *Exec) havocQuantified(loc location, post *State) {
+	switch loc.kind {
+	case "ghost":
+		for _, comp := range loc.comps {
+			ks, _, _ := arrayParts(comp.sort)
+			cur := e.get(post, comp.name, comp.sort)
+			nw := e.havoc(post, comp.name, comp.sort)
+			k := Sym(e.Out.FreshName("q$k"))
+			e.Out.Assert("(forall ((" + k + " " + string(ks) + ")) (! " + Imp(Not(loc.member(k, "")), Eq(Sel(nw, k), Sel(cur, k))) + " :pattern ((select " + nw + " " + k + "))))")
+			e.recordWrite(comp.name, "")
+		}
+	case "heap":
+		cur := e.get(post, loc.heap, loc.hs)
+		_, vs, _ := arrayParts(loc.hs)
+		_, _, twoLevel := arrayParts(vs)
+		if loc.qv == "" && twoLevel {
+			// a range of one row
+			row := e.Out.Fresh(loc.heap+"@range", vs)
+			j := Sym(e.Out.FreshName("q$j"))
+			e.Out.Assert("(forall ((" + j + " Int)) (! " + Imp(Not(And("(<= "+loc.lo+" "+j+")", "(< "+j+" "+loc.hi+")")), Eq(Sel(row, j), Sel(Sel(cur, loc.ref), j))) + " :pattern ((select " + row + " " + j + "))))")
+			e.set(post, loc.heap, loc.hs, Sto(cur, loc.ref, row))
+			e.recordWrite(loc.heap, loc.ref)
+			return
+		}
+		nw := e.havoc(post, loc.heap, loc.hs)
+		r := Sym(e.Out.FreshName("q$r"))
+		if twoLevel {
+			ks2, _, _ := arrayParts(vs)
+			i := Sym(e.Out.FreshName("q$i"))
+			e.Out.Assert("(forall ((" + r + " Int) (" + i + " " + string(ks2) + ")) (! " + Imp(Not(loc.member(r, i)), Eq(Sel(Sel(nw, r), i), Sel(Sel(cur, r), i))) + " :pattern ((select (select " + nw + " " + r + ") " + i + "))))")
+		} else {
+			e.Out.Assert("(forall ((" + r + " Int)) (! " + Imp(Not(loc.member(r, "")), Eq(Sel(nw, r), Sel(cur, r))) + " :pattern ((select " + nw + " " + r + "))))")
+		}
+		e.recordWrite(loc.heap, "")
 	}
 }
 
@@ -551,4 +626,264 @@ func (e *Exec) fvVal(fv *ssa.FreeVar, v Val) Val {
 		return v
 	}
 	return Val{Addr: e.ptrAddr(v, fv.Type()), Ty: fv.Type()}
+}
+
+// applyParfor is the disjoint-parallel rule for "parfor <closure param> <count>": the callee runs the worker closure
+// once for each extent (offset, entries) of a partition of [0,count) (the partition facts are the callee's 'with'
+// clauses over arg0/arg1, established where the callee spawns its workers). The worker's contract
+// (worker i offset entries / modifies / ensures-each) is verified on the closure's body; here:
+//   [parfor-disjoint]  the frames of two different extents do not overlap (so workers do not write the same place);
+//   [parfor-pre]       the worker's preconditions hold for every extent, in every state other workers may have produced;
+//   [parfor-stable]    each per-index postcondition, once established, is not disturbed by the other workers;
+// then the frame of the whole range is havocked and the per-index postconditions are assumed for every index of
+// [0,count). Workers reading what other workers write is not modelled (see DESIGN: race-freedom of reads).
+func (e *Exec) applyParfor(fr *Frame, ins ssa.Instruction, ctr *Contract, env *Env, pre, post *State, g string, site string) {
+	f := strings.Fields(ctr.Parfor)
+	if len(f) != 2 {
+		e.unsupported("%s: parfor <closure parameter> <count parameter>", ctr.Key)
+	}
+	cv, ok := env.vars[f[0]]
+	if !ok || cv.Clo == nil {
+		e.unsupported("%s: parfor parameter %q is not a statically known closure here", ctr.Key, f[0])
+	}
+	nv, ok := env.vars[f[1]]
+	if !ok {
+		e.unsupported("%s: parfor count %q", ctr.Key, f[1])
+	}
+	cfn, ok := cv.Clo.Fn.(*ssa.Function)
+	if !ok {
+		e.unsupported("%s: parfor of a builtin", ctr.Key)
+	}
+	cctr := e.P.Spec.Contracts[FuncKey(cfn)]
+	if cctr == nil || len(cctr.Worker) != 3 {
+		e.unsupported("worker closure %s (run by %s) has no 'worker' contract", FuncKey(cfn), ctr.Key)
+	}
+	e.P.Trusted["used contract: "+cctr.Key] = true
+	iv, offName, entName := cctr.Worker[0], cctr.Worker[1], cctr.Worker[2]
+	for _, c := range cctr.Each {
+		if mentions(c.E, offName) || mentions(c.E, entName) {
+			e.unsupported("%s: ensures-each %s mentions the extent (%s/%s)", cctr.Key, c.Label, offName, entName)
+		}
+	}
+	var home *types.Package
+	if pk := e.P.ByPath[cctr.Pkg]; pk != nil {
+		home = pk.Types
+	}
+	intT := types.Typ[types.Int]
+	base := map[string]Val{}
+	for _, p := range cfn.Params {
+		if p.Name() != offName && p.Name() != entName {
+			base[p.Name()] = e.freshTyped(fr.prefix+valueName(ins)+"$wk$"+p.Name(), p.Type(), pre)
+		}
+	}
+	for i, fv := range cfn.FreeVars {
+		base[fv.Name()] = e.fvVal(fv, cv.Clo.Bindings[i])
+	}
+	mkEnv := func(o, c string, st, old *State) *Env {
+		vars := map[string]Val{}
+		for k, v := range base {
+			vars[k] = v
+		}
+		vars[offName] = Val{T: o, S: SInt, Ty: intT}
+		vars[entName] = Val{T: c, S: SInt, Ty: intT}
+		return &Env{e: e, vars: vars, st: st, old: old, fr: nil, home: home}
+	}
+	// the partition facts of one extent
+	extent := func(o, c string) string {
+		wenv := &Env{e: e, vars: map[string]Val{}, st: pre, old: pre, fr: fr, home: env.home}
+		for k, v := range env.vars {
+			wenv.vars[k] = v
+		}
+		wenv.vars["arg0"] = Val{T: o, S: SInt, Ty: intT}
+		wenv.vars["arg1"] = Val{T: c, S: SInt, Ty: intT}
+		var fs []string
+		for _, w := range ctr.With {
+			fs = append(fs, e.evalBool(w, wenv))
+		}
+		if len(fs) == 0 {
+			e.unsupported("%s: parfor needs 'with' clauses describing the extents", ctr.Key)
+		}
+		return And(fs...)
+	}
+	locsFor := func(o, c string, st *State) []location {
+		var out []location
+		lenv := mkEnv(o, c, st, st)
+		for _, m := range cctr.Modifies {
+			out = append(out, e.evalLocs(m.E, lenv)...)
+		}
+		return out
+	}
+	fresh := func(n string) string { return e.Out.Fresh(fr.prefix+valueName(ins)+"$"+n, SInt) }
+	fk := FuncKey(fr.fn)
+	name := func(kind, label string) string { return fmt.Sprintf("%s/call:%s/%s:%s", fk, site, kind, label) }
+	// locations are evaluated in the pre state: the slices and keys that index them must not be in the frame themselves
+	all := locsFor("0", nv.T, pre)
+
+	// 1. disjointness of the frames of two extents
+	o1, c1, o2, c2 := fresh("o1"), fresh("c1"), fresh("o2"), fresh("c2")
+	l1s, l2s := locsFor(o1, c1, pre), locsFor(o2, c2, pre)
+	var overlaps []string
+	for _, a := range l1s {
+		for _, b := range l2s {
+			if a.kind != b.kind || (a.kind == "heap" && a.heap != b.heap) {
+				continue
+			}
+			if a.kind == "ghost" && a.mono {
+				// grow-only set: concurrent additions commute and nothing is ever removed
+				continue
+			}
+			if a.kind == "ghost" {
+				if len(a.comps) == 0 || len(b.comps) == 0 || a.comps[0].name != b.comps[0].name {
+					continue
+				}
+				ks, _, _ := arrayParts(a.comps[0].sort)
+				k := e.Out.Fresh("pf$k", ks)
+				overlaps = append(overlaps, And(a.member(k, ""), b.member(k, "")))
+				continue
+			}
+			r := e.Out.Fresh("pf$r", SInt)
+			_, vs, _ := arrayParts(a.hs)
+			if ks2, _, two := arrayParts(vs); two {
+				i := e.Out.Fresh("pf$i", ks2)
+				overlaps = append(overlaps, And(a.member(r, i), b.member(r, i)))
+			} else {
+				overlaps = append(overlaps, And(a.member(r, ""), b.member(r, "")))
+			}
+		}
+	}
+	hyp := And(g, extent(o1, c1), extent(o2, c2), "(<= (+ "+o1+" "+c1+") "+o2+")")
+	e.Out.AddObl(&Obligation{Name: name("parfor-disjoint", "frames"), Func: fk, Kind: "parfor", Label: "disjoint",
+		Text: "the frames of two different worker extents of " + cctr.Key + " do not overlap", Src: cctr.Src,
+		Formula: Imp(hyp, Not(Or(overlaps...))), Inputs: e.obsInputs(fr)})
+
+	// states other workers may have produced: the whole frame havocked, this worker's own part as given
+	interfered := func(from *State, o, c string, own *State) (*State, string) {
+		s := from.clone()
+		nt := e.havoc(s, "$top", SInt)
+		e.Out.Assert("(>= " + nt + " " + e.top(from) + ")")
+		for _, l := range all {
+			e.havocOne(Clause{}, l, nil, from, s)
+		}
+		var agree []string
+		for _, l := range locsFor(o, c, pre) {
+			if l.mono {
+				continue // other workers may have added elements
+			}
+			agree = append(agree, e.agreeOn(l, s, own))
+		}
+		return s, And(agree...)
+	}
+
+	// 2. preconditions of the worker, for every extent
+	o, c := fresh("o"), fresh("c")
+	sOwn, agree := interfered(pre, o, c, pre)
+	penv := mkEnv(o, c, sOwn, sOwn)
+	for _, rq := range cctr.Requires {
+		t := e.evalBool(rq, penv)
+		e.Out.AddObl(&Obligation{Name: name("parfor-pre", rq.Label), Func: fk, Kind: "pre", Label: rq.Label, Text: rq.Text, Src: rq.Src,
+			Formula: Imp(And(g, extent(o, c), agree), t), Inputs: e.obsInputs(fr), Obs: e.lastObs})
+	}
+
+	// 3. stability of the per-index postconditions
+	i0 := fresh("i0")
+	sA, _ := interfered(sOwn, o, c, sOwn)
+	sB, agreeB := interfered(sA, o, c, sA)
+	inExt := And("(<= "+o+" "+i0+")", "(< "+i0+" (+ "+o+" "+c+"))")
+	for _, ec := range cctr.Each {
+		envA := mkEnv(o, c, sA, sOwn).with(iv, Val{T: i0, S: SInt, Ty: intT})
+		envB := mkEnv(o, c, sB, pre).with(iv, Val{T: i0, S: SInt, Ty: intT})
+		ta := e.evalBool(ec, envA)
+		tb := e.evalBool(ec, envB)
+		e.Out.AddObl(&Obligation{Name: name("parfor-stable", ec.Label), Func: fk, Kind: "parfor", Label: ec.Label,
+			Text: "per-index postcondition is about the worker's own part of the frame only: " + ec.Text, Src: ec.Src,
+			Formula: Imp(And(g, extent(o, c), agree, agreeB, inExt, ta), tb), Inputs: e.obsInputs(fr)})
+	}
+
+	// 4. effect: the frame of the whole range is havocked; every index has been processed by exactly one worker
+	if !ctr.Flags["noalloc"] {
+		// (the caller already raised $top)
+	}
+	for _, l := range all {
+		e.havocOne(Clause{}, l, nil, pre, post)
+	}
+	for _, ec := range cctr.Each {
+		qenv := mkEnv("0", "0", post, pre)
+		delete(qenv.vars, offName)
+		delete(qenv.vars, entName)
+		qenv.vars["parfor_n"] = nv
+		q := ec
+		q.E = EQuant{true, []QVar{{iv, "int"}}, EBinary{"==>", EBinary{"&&", EBinary{"<=", EInt{"0"}, EIdent{iv}}, EBinary{"<", EIdent{iv}, EIdent{"parfor_n"}}}, ec.E}}
+		e.assume(g, e.evalBool(q, qenv))
+	}
+}
+
+// agreeOn: the two states hold the same values at the location.
+func (e *Exec) agreeOn(l location, a, b *State) string {
+	switch l.kind {
+	case "ghost":
+		var fs []string
+		for _, comp := range l.comps {
+			x, y := e.get(a, comp.name, comp.sort), e.get(b, comp.name, comp.sort)
+			if l.key == "" {
+				fs = append(fs, Eq(x, y))
+			} else {
+				fs = append(fs, l.forall(Eq(Sel(x, l.key), Sel(y, l.key))))
+			}
+		}
+		return And(fs...)
+	case "heap":
+		x, y := e.get(a, l.heap, l.hs), e.get(b, l.heap, l.hs)
+		switch {
+		case l.whole:
+			return Eq(x, y)
+		case l.idx != "":
+			return l.forall(Eq(Sel(Sel(x, l.ref), l.idx), Sel(Sel(y, l.ref), l.idx)))
+		case l.lo != "":
+			j := Sym(e.Out.FreshName("q$j"))
+			return l.forall("(forall ((" + j + " Int)) (! " + Imp(And("(<= "+l.lo+" "+j+")", "(< "+j+" "+l.hi+")"), Eq(Sel(Sel(x, l.ref), j), Sel(Sel(y, l.ref), j))) + " :pattern ((select (select " + x + " " + l.ref + ") " + j + "))))")
+		default:
+			return l.forall(Eq(Sel(x, l.ref), Sel(y, l.ref)))
+		}
+	}
+	return "true"
+}
+
+// mentions reports whether the identifier occurs free in the expression.
+func mentions(x Expr, name string) bool {
+	switch x := x.(type) {
+	case EIdent:
+		return x.Name == name
+	case EUnary:
+		return mentions(x.X, name)
+	case EBinary:
+		return mentions(x.X, name) || mentions(x.Y, name)
+	case ESel:
+		return mentions(x.X, name)
+	case EIndex:
+		return mentions(x.X, name) || mentions(x.I, name)
+	case ESlice:
+		return mentions(x.X, name) || (x.Lo != nil && mentions(x.Lo, name)) || (x.Hi != nil && mentions(x.Hi, name))
+	case EUpd:
+		return mentions(x.X, name) || mentions(x.K, name) || mentions(x.V, name)
+	case ECall:
+		for _, a := range x.Args {
+			if mentions(a, name) {
+				return true
+			}
+		}
+	case EOld:
+		return mentions(x.X, name)
+	case EQuant:
+		for _, v := range x.Vars {
+			if v.Name == name {
+				return false
+			}
+		}
+		return mentions(x.Body, name)
+	case ELet:
+		return mentions(x.Val, name) || (x.Name != name && mentions(x.Body, name))
+	case EIf:
+		return mentions(x.C, name) || mentions(x.A, name) || mentions(x.B, name)
+	}
+	return false
 }
